@@ -374,7 +374,7 @@ LayoutAlphabet ==
     [k |-> "ascii", bs |-> <<65, 66, 67>>], Lab("a"), Lab("b"), Const("n", Num(3)),
     DotSet(Bin("+", Dot, Num(5))), [k |-> "insert", len |-> 5], [k |-> "dword", es |-> << Num(66000), Num(-2) >>], Blkw(Num(2)), I1("sob", A),
     Rep(2, << I0("nop"), W(<< Dot >>) >>), Inc(1), Inc(2), W(<<>>), By(<<>>), [k |-> "dword", es |-> <<>>],
-    Rep(2, << W(<< B >>), [k |-> "ascii", bs |-> <<72, 105>>] >>) }
+    Rep(2, << W(<< B >>), [k |-> "ascii", bs |-> <<72, 105>>] >>), Inc(4) }
 RelocAlphabet ==       \* C09: even-sized statements; absolute (#a, @#b, .word a) and relative (a, br a) references
   { I0("nop"), I1("movi", A), I1("mova", B), I1("movr", A), I1("movr", B), I2("movrr", A, B), I2("movii", A, B),
     I2("movii", Bin("-", B, A), Bin("+", A, Num(2))), I1("clra", B), I1("br", A), I1("br", B), I1("sob", A),
@@ -458,7 +458,9 @@ LayoutCoreAlphabet ==  \* C02: the core of LayoutAlphabet, small enough for all 
     [k |-> "ascii", bs |-> <<65, 66, 67>>], Lab("a"), Const("n", Num(3)), DotSet(Bin("+", Dot, Num(5))), Rep(2, << W(<< B >>), [k |-> "ascii", bs |-> <<72, 105>>] >>),
     Inc(2), Lab("b") }
 LayoutIncFiles == << [name |-> "i1", body |-> << Lab("x"), W(<< Sym("x"), Dot >>), By(<< Num(7) >>) >>],
-                     [name |-> "i2", body |-> << W(<< Sym("y") >>), [k |-> "ascii", bs |-> <<79, 75, 33>>], Lab("y"), By(<< Bin("-", Dot, Sym("y")) >>) >>] >>
+                     [name |-> "i2", body |-> << W(<< Sym("y") >>), [k |-> "ascii", bs |-> <<79, 75, 33>>], Lab("y"), By(<< Bin("-", Dot, Sym("y")) >>) >>],
+                     [name |-> "i3", body |-> << By(<< Num(3) >>), Inc(2), [k |-> "even"], Lab("z"), W(<< Sym("z"), Dot >>) >>],          \* include depth 2
+                     [name |-> "i4", body |-> << Lab("w"), Inc(3), I1("movr", Sym("w")), Blkb(Num(1)) >>] >>                               \* include depth 3
 
 (* ------------------------------------------------------------------ TLC writes the program *)
 Stmts(fs)  == Concat(fs)
